@@ -93,6 +93,8 @@ def finish(prop, mod, tier, seed, res, known, t0, verbose=False, extra_cov=None,
     by_solver = {}
     lemma_keys = set()
     lines_hit = set()
+    n_ok_paths = 0
+    n_cc_same = 0
 
     def add_violation(fn, params, obligation, model, why, exception=None):
         k = cli.match_known(known, prop, fn, params, obligation, exception)
@@ -147,6 +149,7 @@ def finish(prop, mod, tier, seed, res, known, t0, verbose=False, extra_cov=None,
                     js.setdefault("unsupported_why", "symbolic-only exception: %s @ %s" % (exc, p.get("where")))
                 continue
             # status ok
+            n_ok_paths += 1
             all_unsat = True
             for ob in p["obligations"]:
                 n_obl += 1
@@ -175,6 +178,8 @@ def finish(prop, mod, tier, seed, res, known, t0, verbose=False, extra_cov=None,
                 if cc["status"] == "ok" and not cc.get("failed"):
                     n_cc += 1
                     js["crosschecked"] += 1
+                    if cc.get("ob_names_hash") and cc.get("ob_names_hash") == p.get("sym_ob_names_hash"):
+                        n_cc_same += 1
                 elif cc["status"] == "ok" and cc.get("failed") and not p.get("pc_model_interior"):
                     n_cc_skip += 1      # boundary (tie) witness: float rounding may flip a comparison; not counted either way
                 elif cc["status"] == "ok" and cc.get("failed"):
@@ -232,6 +237,11 @@ def finish(prop, mod, tier, seed, res, known, t0, verbose=False, extra_cov=None,
         "unsupported_paths": n_unsupported,
         "incomplete_jobs": incomplete_jobs,
         "traces_validated_against_impl": n_cc,
+        "vacuity_guard": {"rule": "a path counts as witnessed when the solver produced an explicit model of its path condition (so the assumptions are "
+                                  "satisfiable together with the branch decisions) AND the same harness, run on that model against the plain package, "
+                                  "reached and passed its obligations (the second counter tells for how many paths the concrete run evaluated exactly the same set of obligation names; harnesses with concrete-only / symbolic-only obligations or projected witnesses differ); this is the per-path form of the 'assert(false) must be violated' twin",
+                          "paths_witnessed": n_cc, "witness_reached_exactly_the_symbolic_path_obligations": n_cc_same, "paths_completed": n_ok_paths, "paths_completed_without_witness": max(0, n_ok_paths - n_cc - n_cc_skip),
+                          "witness_was_a_tie_or_skipped": n_cc_skip},
         "crosscheck_skipped": n_cc_skip,
         "queries": queries,
         "obligation_solver_seconds": round(solver_s, 2),
@@ -293,3 +303,6 @@ def write_evidence(prop, ev):
     except ImportError:
         pass
     json.dump(ev, open(path, "w"), indent=1, default=str)
+    if ev.get("tier") == "thorough":       # the last thorough run is kept next to the (usually quick) current evidence file
+        os.makedirs(os.path.join(ROOT, "evidence", "thorough"), exist_ok=True)
+        json.dump(ev, open(os.path.join(ROOT, "evidence", "thorough", prop + ".json"), "w"), indent=1, default=str)
